@@ -1626,14 +1626,15 @@ Proof.
     change (filter (fun v => negb (is_recvar dims v)) vs) with (filter nonrec vs).
     change (filter (is_recvar dims) vs) with (filter isr vs).
     change (map (var_len dims) (filter isr vs)) with (map Lv (filter isr vs)).
-    rewrite <- (brF_last dims vs xsz), (order_brF dims vs xsz ef Hof).
+    pose proof (brF_last dims vs xsz) as Hbl. unfold Proofs_Reader.Lv in Hbl. rewrite <- Hbl, (order_brF dims vs xsz ef Hof). clear Hbl.
+    pose proof (Hbn nonrec) as Hbf. pose proof (Hbn isr) as Hbr.
     destruct (filter isr vs) as [|fr frs] eqn:Er.
     - (* no record variable *)
       destruct (filter nonrec vs) as [|fv fvs] eqn:Ef.
       { exfalso. apply Hne. eapply filter_both_nil; [exact Er | exact Ef]. }
       destruct (order_ok_first _ _ _ _ _ Hof) as [Hb Hof'].
-      pose proof (order_ok_ge _ _ _ (Hbn nonrec) Hof') as Hbe. rewrite Ef in Hbe. specialize (Hbe ltac:(rewrite <- Ef; apply Hbn)).
-      exists (v_begin fv), ef, 0. cbn [map zsum]. rewrite Evs at 1. rewrite <- Evs.
+      pose proof (order_ok_ge _ _ _ Hbf Hof') as Hbe.
+      exists (v_begin fv), ef, 0. cbn [map zsum].
       repeat split; try lia; try reflexivity.
       + destruct vs; [congruence | reflexivity].
       + intros _. exact Hof'.
@@ -1655,7 +1656,7 @@ Proof.
         * intros Hc; congruence.
         * intros _. exists er. exact Her'.
       + destruct (order_ok_first _ _ _ _ _ Hof) as [Hb2 Hof'].
-        pose proof (order_ok_ge _ _ _ ltac:(rewrite <- Ef; apply Hbn) Hof') as Hbe.
+        pose proof (order_ok_ge _ _ _ Hbf Hof') as Hbe.
         exists (v_begin fv), (v_begin fr), (if rs0 =? Lv fr then rawv fr else rs0).
         rewrite Hrs. repeat split; try lia; try reflexivity.
         * destruct vs; [congruence | reflexivity].
@@ -1687,14 +1688,14 @@ Proof.
     { destruct (Zlen vs - Zlen (filter isr vs) =? 0) eqn:En; [reflexivity|].
       rewrite (voffs_pass_ok dims vs false bv Hbounds), filter_eqb_false. cbn [rbind].
       rewrite Hfix; [replace (br <? ef) with false by lia; reflexivity|].
-      intros Hc. rewrite Hc in Hpart. cbn in Hpart. lia. }
+      intros Hc. rewrite Hc, Zlen_nil in Hpart. lia. }
     rewrite E0. cbn [rbind]. change (NC_NOERR =? NC_NOERR) with true. cbn [negb].
     destruct (Zlen (filter isr vs) =? 0) eqn:En; [reflexivity|].
     rewrite (voffs_pass_ok dims vs true br Hbounds), filter_eqb_true. cbn [rbind].
-    destruct Hrec as [er Her]; [intros Hc; rewrite Hc in En; cbn in En; discriminate|].
+    destruct Hrec as [er Her]; [intros Hc; rewrite Hc, Zlen_nil in En; discriminate|].
     rewrite Her. reflexivity. }
   rewrite Hvo. cbn [rbind]. change (NC_NOERR =? NC_NOERR) with true. cbn [negb].
-  rewrite Elay. rewrite map_map.
+  rewrite Elay.
   replace (filter shape_isrec (map (var_shape dims) vs)) with (map (var_shape dims) (filter isr vs)).
   - rewrite Zlen_map. reflexivity.
   - clear. induction vs as [|v vs IH]; [reflexivity|]. cbn [map filter]. change (shape_isrec (var_shape dims v)) with (isr v).
